@@ -9,7 +9,7 @@ Cfg(k, lim, ovf, rl, wl) == [kind |-> k, lim |-> lim, ovf |-> ovf, rl |-> rl, wl
 ConfigsAll == {Cfg("limit", lim, ovf, None, None) : lim \in {None, 0, 1, 2}, ovf \in BOOLEAN}
               \cup {Cfg("throttle", lim, FALSE, rl, wl) : lim \in {None, 0, 1}, rl \in {None, 1}, wl \in {None, 1}}
               \cup {Cfg("wrap", None, FALSE, None, None)}
-ConfigsRd == {Cfg("throttle", lim, FALSE, 1, None) : lim \in {None, 1}} \cup {Cfg("throttle", None, FALSE, 2, None)}
+ConfigsRd == {Cfg("throttle", None, FALSE, rl, None) : rl \in {1, 2}}
 ConfigsRdT == {Cfg("throttle", lim, FALSE, rl, None) : lim \in {None, 1, 2}, rl \in {1, 2}}
 ConfigsWr == {Cfg("throttle", lim, FALSE, None, wl) : lim \in {None, 1}, wl \in {1, 2}}
 OpsAll == {"build", "connect", "data", "write", "wseq", "lose", "regprod", "unregprod", "lost", "adv", "fire"}
@@ -21,7 +21,7 @@ Configs == ConfigsAll
 Ops == OpsAll
 MSizes == {1, 3}
 Advs == {1, 2}
-Depth == 6
+Depth == 7
 MaxConn == 3
 MaxNow == 6
 SizesRd == {3, 5}
@@ -29,6 +29,7 @@ DepthRd == 11
 AdvsRd == {2, 3}
 SizesWr == {3}
 ConfigsReach == {Cfg("throttle", None, FALSE, 1, None)}
+ConfigsReach2 == {Cfg("throttle", None, FALSE, 2, None)}
 SizesReach == {5}
 AdvsReach == {2}
 DepthWr == 9
